@@ -15,11 +15,12 @@ import math
 import numpy as np
 from fractions import Fraction
 from .. import common
+from ..translator import py2lean
 from ..common import enc, ask, close, call
 from ..translator import consts
 
 LEVEL = "proof"
-PROP_FILES = ["PersimVerif/Props/C13.lean", "PersimVerif/Generated/KernelConsts.lean"]
+PROP_FILES = ["PersimVerif/Props/C13.lean", "PersimVerif/Generated/KernelConsts.lean", py2lean.prop_file("kernels")]
 RULE = ("kernel parameter sets from one PRNG: correlation r from a ladder on both sides of 0.3/0.75/0.925 (exactly at, one ulp "
         "below/above, +-1e-4), +-, |r| up to 0.99999 and uniform; variances 1e-4..1e4 (decimal and powers of 4), means of either "
         "sign and scale; evaluation points mu + t*sd with t from {0, +-tiny, uniform +-3, uniform +-12, lines dh=dk / dh=-dk, "
@@ -38,7 +39,8 @@ ASSUMPTIONS = [
     "far tails are explored to 1e6 standard deviations, by correspondence and by the far_tails stream (beyond ~1e77 sd the squares in "
     "bvn_cdf overflow; not explored)",
 ]
-TRUSTED = ["harness/translator/consts.py (ast extraction of the Gauss-Legendre tables, thresholds and literals; its output is committed and "
+TRUSTED = [py2lean.trusted_note("kernels"),
+           "harness/translator/consts.py (ast extraction of the Gauss-Legendre tables, thresholds and literals; its output is committed and "
            "re-checked by Lean on every run)",
            "scipy.special.owens_t/ndtr, scipy.integrate.quad, scipy.stats.multivariate_normal as references of the [T] accuracy streams"]
 EXPLANATION = ("proof, partial: 'obligations' counts the Lean theorems of Props/C13.lean and the generated constant obligations of "
@@ -83,6 +85,7 @@ def pre_build(ctx):
         info["literals"] = {f: len(v) for f, v in ex["literals"].items()}
     ctx.extra["translator"] = info
     ctx.extra["source_digest"] = common.source_digest(consts.FILE)
+    py2lean.pre_build(ctx, ("kernels",))     # source translator: uniform, norm_cdf, sbvn_cdf, dispatch of gaussian
 
 
 # ----------------------------------------------------------------------------- references (independent of the algorithm)
@@ -798,7 +801,7 @@ def broken_theorems(ctx):
     """names of the generated obligations that no longer check (line numbers of the build errors -> theorem names)"""
     import os, re
     out = []
-    for rel in PROP_FILES:
+    for rel in PROP_FILES[:2]:           # (the source translator's file is mapped by py2lean.broken_obligations)
         path = os.path.join(common.LEAN_DIR, rel)
         try:
             src = open(path).read().split("\n")
@@ -819,6 +822,9 @@ def broken_theorems(ctx):
 
 def run(ctx):
     bt = broken_theorems(ctx)
+    for n in py2lean.broken_obligations(ctx, [py2lean.prop_file("kernels")]):
+        if n not in bt:
+            bt.append(n)
     if bt:
         print("generated/proved obligations that no longer check: %s" % ", ".join(bt), flush=True)
     corr_uniform(ctx)
@@ -939,3 +945,4 @@ MANIFEST = {
     "technique": "Lean 4 theorems (uniform kernel, product form, generated constant obligations) + Float transcription tied by "
                  "differential correspondence + reference tests for the correlated Gaussian",
 }
+MANIFEST["note"] += " " + py2lean.manifest_note("kernels")
